@@ -241,7 +241,8 @@ class C02(Prop):
             "RandomState objects whose crafted state emits exactly the scripted values; "
             "protocol: the 7 mating protocols, 1-3 crosses, array/scalar nmating,nprogeny, nself 0-1, genuine "
             "seeded generators behind a recorder; xoprob: 1-5 chromosomes (single-marker ones included), "
-            "dyadic positions with zero distances, Haldane and Kosambi, direct and via interp_xoprob; "
+            "dyadic positions with zero distances, Haldane and Kosambi, rprob1g on StandardGeneticMap and on "
+            "ExtendedGeneticMap and via interp_xoprob; "
             "stat (fixed seeds): all 6 functions + 7 protocols, explicit vectors and Haldane/Kosambi maps. "
             "Non-trivial = scripted/protocol/embv case with >= 1 crossover and >= 2 gametes with different masks, "
             "xoprob case with >= 2 chromosomes, any stat case")
@@ -297,6 +298,9 @@ class C02(Prop):
             {"kind": "xoprob", "fn": "kosambi", "via": "interp", "chr": [1, 1, 1, 2, 2, 3, 3, 3],
              "pos": [0, "1/8", h, 0, "1/4", "1/4", h, 1]},
             {"kind": "xoprob", "fn": "haldane", "via": "rprob1g", "chr": [4, 7, 7, 9], "pos": [h, 0, 0, 2]},
+            {"kind": "xoprob", "fn": "kosambi", "via": "extended", "chr": [4, 7, 7, 9], "pos": [h, 0, 0, 2]},
+            {"kind": "xoprob", "fn": "haldane", "via": "extended", "chr": [1, 1, 1, 2, 2, 3, 3, 3],
+             "pos": [0, "1/8", h, 0, "1/4", "1/4", h, 1]},
         ]
         for p in PROTOS:
             np_ = NPARENT[p]
@@ -416,7 +420,7 @@ class C02(Prop):
 
     def _gen_xoprob(self, rng):
         nchr = rng.choice([1, 2, 3, 5])
-        via = rng.choice(["rprob1g", "rprob1g", "interp"])
+        via = rng.choice(["rprob1g", "extended", "interp"])
         labels = sorted(rng.sample(range(1, 30), nchr))
         chr_, pos = [], []
         for c in labels:
@@ -595,6 +599,10 @@ class C02(Prop):
         mf = (hal.HaldaneMapFunction if fn == "haldane" else kos.KosambiMapFunction)()
         if via == "rprob1g":
             return mf.rprob1g(gmap, chr_a, gen), gen
+        if via == "extended":
+            import pybrops.popgen.gmap.ExtendedGeneticMap as egm
+            emap = egm.ExtendedGeneticMap(chr_a, phy, phy + 1, gen)
+            return mf.rprob1g(emap, chr_a, gen), gen
         pg = dpgm.DensePhasedGenotypeMatrix(numpy.zeros((2, 1, len(chr_)), dtype="int8"),
                                             vrnt_chrgrp=chr_a, vrnt_phypos=phy)
         pg.group_vrnt()
@@ -976,10 +984,15 @@ class C02(Prop):
             finally:
                 setattr(obj, name, old)
 
-        def meiosis_variant(le=False, drop0=False, one_row=False, roll=False, two_calls=False):
+        def meiosis_variant(le=False, drop0=False, one_row=False, roll=False, two_calls=False,
+                            float32=False, clip_half=False):
             def f(geno, sel, xoprob, rng):
                 gshape = (len(sel), len(xoprob))
                 rnd = rng.uniform(0, 1, gshape)
+                if float32:
+                    rnd = rnd.astype("float32")
+                if clip_half:
+                    xoprob = numpy.minimum(xoprob, 0.5)
                 if one_row and len(sel):
                     rnd = numpy.repeat(rnd[:1], len(sel), axis=0)
                 xo = numpy.roll(xoprob, 1) if roll else xoprob
@@ -1024,7 +1037,27 @@ class C02(Prop):
         def dh_fresh_generator(geno, sel, xoprob, rng):
             return cmate.dense_dh(geno, sel, xoprob, numpy.random.default_rng(1))
 
+        def rprob1g_capped(self, gmap, vrnt_chrgrp, vrnt_genpos):
+            # gaps of half a Morgan or more are treated as unlinked
+            d = gmap.gdist1g(vrnt_chrgrp, vrnt_genpos)
+            r = self.mapfn(d)
+            r[d >= 0.5] = 0.5
+            return r
+
+        import pybrops.popgen.gmap.ExtendedGeneticMap as egm
+
         return [
+            ("mat_meiosis_float32_draws", lambda: patch(mutil, "mat_meiosis", meiosis_variant(float32=True))),
+            ("dense_meiosis_float32_draws", lambda: patch(cmate, "dense_meiosis", meiosis_variant(float32=True))),
+            ("mat_meiosis_xoprob_clipped_to_half", lambda: patch(mutil, "mat_meiosis", meiosis_variant(clip_half=True))),
+            ("dense_meiosis_xoprob_clipped_to_half",
+             lambda: patch(cmate, "dense_meiosis", meiosis_variant(clip_half=True))),
+            ("haldane_rprob1g_caps_gaps_at_half_morgan",
+             lambda: patch(hal.HaldaneMapFunction, "rprob1g", rprob1g_capped)),
+            ("kosambi_rprob1g_caps_gaps_at_half_morgan",
+             lambda: patch(kos.KosambiMapFunction, "rprob1g", rprob1g_capped)),
+            ("extended_gdist1g_without_inf_at_chromosome_starts",
+             lambda: patch(egm.ExtendedGeneticMap, "gdist1g", gdist_no_inf)),
             ("embv_fresh_generator_each_replicate", lambda: patch(embv_mod, "dense_dh", dh_fresh_generator)),
             ("interp_xoprob_without_map_function",
              lambda: patch(dpgm.DensePhasedGenotypeMatrix, "interp_xoprob", interp_skip_mapfn)),
